@@ -327,6 +327,10 @@ fn main() {
         log.push(Sent { path: "(restart)".into(), desc: json!({"queue_len": queue.len()}), status: None });
         match http::start_server(&dir, &[]) {
           Ok(s) => server = s,
+          Err(e) if e.starts_with("slow:") => {
+            l.inconclusive(format!("restart: {e}"));
+            return;
+          }
           Err(e) => {
             l.fail("restart-fails", format!("server does not come back on the same directory: {e}"), case(&log, json!(null)));
             return;
